@@ -1,0 +1,21 @@
+//! Verification hooks.
+//!
+//! This module only exists with the `verif-hooks` feature. It re-exports crate-internal items and
+//! provides thin facades so that an external verification harness can drive the real
+//! implementation. It adds code only; nothing here is used by the crate itself.
+
+/// Routing table hooks.
+pub mod kbucket {
+    pub use crate::kbucket::filter::Filter;
+    use crate::Enr;
+
+    /// The table-level IP filter (at most 10 nodes of one /24 in the table).
+    pub fn ip_table_filter() -> Box<dyn Filter<Enr>> {
+        Box::new(crate::kbucket::filter::IpTableFilter)
+    }
+
+    /// The bucket-level IP filter (at most 2 nodes of one /24 per bucket).
+    pub fn ip_bucket_filter() -> Box<dyn Filter<Enr>> {
+        Box::new(crate::kbucket::filter::IpBucketFilter)
+    }
+}
